@@ -16,12 +16,12 @@ def prop(pid, claim, sources, outside, trusted, harnesses):
     PROPS[pid] = {"claim": claim, "sources": sources, "outside": outside, "trusted": trusted, "harnesses": harnesses}
 
 
-def H(name, module, tier="quick", crate="core", timeout=None, functions=(), bounds="", stubs=(), assumptions=(), loops=8):
+def H(name, module, tier="quick", crate="core", timeout=None, functions=(), bounds="", stubs=(), assumptions=(), loops=8, common=True):
     """loops = bound given to EVERY loop of the compiled program via --unwindset; the #[kani::unwind(R)] attribute on the
     harness bounds recursion only (see vlib.run_kani)."""
     d = {"name": name, "module": module, "tier": tier, "crate": crate, "functions": list(functions),
          "bounds": bounds + f" | every loop unwound {loops}x (unwinding assertions on), recursion per #[kani::unwind]",
-         "stubs": COMMON_STUBS + list(stubs), "assumptions": list(assumptions), "loops": loops}
+         "stubs": (COMMON_STUBS if common else []) + list(stubs), "assumptions": list(assumptions), "loops": loops}
     if timeout:
         d["timeout"] = timeout
     return d
@@ -230,11 +230,113 @@ prop("C37",
       H("c37_convert_ttl_zero", "h_more", loops=6, timeout=400, functions=["write_op_to_proto", "Command::try_from(WriteCommand)"],
         bounds="put with TTL Some(0), 1-byte key/value", stubs=[FMT])])
 
+# ------------------------------------------------------------------------------------------------
+# Engine S: shadow build of buffered_raft_log.rs (kani/shadow)
+import seqs  # noqa: E402
+SHADOW_STUBS = [
+    "shadow build (kani/shadow/gen.py): buffered_raft_log.rs compiled verbatim except rewrites R1-R6 (imports -> shim models, MAX_TERM_SEGMENTS 1024 -> 3, "
+    "trait impl -> inherent impl, caller-side async fns de-sugared: `.await` -> take the reply the model IO thread already sent)",
+    "crossbeam_skiplist::SkipMap -> ordered map model over 6 slots (exceeding it fails the harness)",
+    "std::collections::HashMap (remove_range's scratch map) -> insertion-ordered array map",
+    "tokio mpsc/oneshot/Notify -> single-threaded typed-static channels; the model IO thread acknowledges every control task at send time",
+    "d_engine_proto Entry -> {index, term, payload:u8}; tracing macros and format! -> no-ops; ScopedTimer -> no-op",
+    "LogStore/MetaStore -> in-memory model (the disk side is not observed by these harnesses)",
+]
+SHADOW_FUNCS = ["BufferedRaftLog::{new, append_entries, filter_out_conflicts_and_append, purge_logs_up_to, reset, reset_internal, insert_to_memory, "
+                "remove_range, update_term_indexes, entry, entry_term, first_entry_id, last_entry_id, last_entry, last_log_id, is_empty, "
+                "first_index_for_term, last_index_for_term}", "TermSegments::{new, get, on_append, clear}"]
+C19_ASSUME = ["requests are ones a Raft leader can send to this follower: entries prev+1.. with non-decreasing terms >= prev_term, and a request entry "
+              "that agrees with the follower in (index, term) implies all earlier request entries agree (Log Matching)",
+              "leader-path appends are at last_log_id+1 with a term >= the last term",
+              "a purge cutoff names the id of an entry: if that index is still in the log its term is the cutoff's term",
+              "payload is a function of (index, term) (same id => same content, as Log Matching guarantees)"]
+_c19 = []
+for _hd in seqs.all_harnesses():
+    _pre = ("the concrete log " + str([f"{i+1}:t{t}" for i, t in enumerate(_hd["prefix"])])) if _hd["prefix"] else "the empty log"
+    _c19.append(H(_hd["name"], "gen_brl::h", tier=_hd["tier"], crate="shadow", timeout=600 if _hd["tier"] == "quick" else 1200, common=False, loops=7,
+                  functions=SHADOW_FUNCS, stubs=SHADOW_STUBS, assumptions=C19_ASSUME,
+                  bounds=f"ONE operation of shape {_hd['shape']} (a=leader append of n entries, f=conflict-aware append of n entries, pu=purge, rs=reset) applied to {_pre}; "
+                         f"indexes 1..={seqs.NB}, terms 1..={seqs.TB} symbolic, prev index/term and purge cutoff symbolic; every RaftLog query compared afterwards"))
+h_c19_pu = [h for h in _c19 if h["name"] == "c19_empty_pu"][0]
+prop("C19",
+     "after ONE log operation (leader append, conflict-aware append incl. the start-from-scratch path, purge, reset) on the empty log -- thorough tier: also on two "
+     "concrete non-empty logs -- every query of the buffered log (first/last index, last log id, entry, entry_term incl. the purge boundary, first/last index of a "
+     "term, is_empty, last_entry, and the conflict-append result) equals the answer of a plain indexed log applying Raft's rules; the real buffered_raft_log.rs "
+     "source is executed (shadow build).",
+     ["d-engine-core/src/storage/buffered_raft_log.rs"],
+     ["SEQUENCES of operations: a second symbolic operation, and a conflict-append of >= 1 entries onto a non-empty log (the truncate-and-re-append orders the "
+      "property's note is about), exceed 28 GB / 900 s (measured, DESIGN 2c) and are NOT decided", "get_entries_range", "the IO thread / durability side (C18)",
+      "real crossbeam SkipMap / tokio channels (modelled)"],
+     [TRUST_TOOL, "the shim models (kani/shadow/src/shim.rs) are faithful to crossbeam-skiplist / tokio::sync for the single-threaded use made of them",
+      "rewrites R1-R6 of kani/shadow/gen.py preserve the meaning of the file (R6: no caller-side suspension, IO thread infinitely fast)"],
+     _c19)
+PROPS["C19"]["harnesses"] = _c19
+
+# C09: the majority / current-term rule on the REAL log (shadow build)
+_c09m = [H(f"c09_majority_rule_{k}_peer{'s' if k > 1 else ''}", "gen_brl::h", crate="shadow", timeout=600, common=False, loops=7,
+           functions=["BufferedRaftLog::calculate_majority_matched_index", "BufferedRaftLog::entry", "BufferedRaftLog::last_entry_id"],
+           stubs=SHADOW_STUBS,
+           assumptions=["log state constructed directly: entries 1..=3 with symbolic non-decreasing terms 1..=3, max_index 3 (the function reads last_entry_id and entry(i) only)",
+                        "the match indexes passed in are those of the voter peers (the voter filter of LeaderState::calculate_new_commit_index is NOT executed)"],
+           bounds=f"{k} voter peer(s) + the leader; match indexes 0..=3, current term <= 4, commit index <= 3, all symbolic")
+         for k in (1, 2, 3, 4)]
+_c09v = [H(f"c09_voter_filter_{a}_peers_{b}_targets", "gen_leader::h", crate="shadow", timeout=600, common=False, loops=6,
+           functions=["LeaderState::calculate_new_commit_index (verbatim function slice, kani/shadow/gen.py)"],
+           stubs=["function slice: the method's source text compiled as a method of a struct holding exactly the fields it reads (match_index, cluster_metadata.replication_targets, "
+                  "commit index, current term); match_index: std HashMap -> insertion-ordered array map; raft_log -> recording model that stores the match indexes it is handed and answers "
+                  "with a symbolic Option<u64>; NodeRole discriminants parsed from d-engine-proto's generated source"],
+           assumptions=["peer ids in match_index are distinct (map keys); replication-target ids are distinct"],
+           bounds=f"{a} peers in match_index, {b} replication targets; ids, roles (any i32), match indexes, commit index, term: full width symbolic")
+         for (a, b) in ((2, 2), (3, 2), (3, 3))]
+PROPS["C09"]["harnesses"] += _c09m + _c09v
+PROPS["C09"]["sources"].append("d-engine-core/src/raft_role/leader_state.rs")
+PROPS["C09"]["sources"].append("d-engine-core/src/storage/buffered_raft_log.rs")
+PROPS["C09"]["claim"] += (" Plus the commit rule itself on the real BufferedRaftLog (shadow build): calculate_majority_matched_index returns an index only if a "
+                          "strict majority of {voter peers, leader} holds it, it is not below the old commit index and its entry is from the current term; and it "
+                          "returns the last index when everybody holds the whole log and its last entry is from the current term (1..=4 voter peers).")
+PROPS["C09"]["claim"] += (" And the voter filter (verbatim slice of LeaderState::calculate_new_commit_index): the match indexes handed to the commit rule are exactly those of the "
+                          "peers that are current replication targets with a non-learner role (learners and removed peers never count), the rule is consulted once with the "
+                          "leader's term and commit index, and the commit index only moves forward.")
+PROPS["C09"]["outside"] = ["update_match_index / the HashMap bookkeeping itself (std HashMap: symbolic execution does not finish); the slice replaces the map by an array model",
+                           "mid-flight learner->voter flips across events",
+                           "more than 4 voter peers; logs longer than 3 entries"]
+PROPS["C09"]["trusted"] = PROPS["C09"]["trusted"] + ["rewrites R1-R6 of kani/shadow/gen.py and the shim models (see C19)"]
+
+# C08: request assembly (verbatim slice of ReplicationHandler::retrieve_to_be_synced_logs_for_peers)
+_c08_stubs = ["function slice: the method's source text compiled as a method of a struct holding the one field it reads (my_id); std HashMap -> insertion-ordered array map "
+              "(2 slots: the leader itself and one peer); raft_log -> leader log model 1..=last (term 1) whose get_entries_range returns exactly the requested entries; "
+              "tracing macros / ScopedTimer -> no-ops; Entry -> {index, term, payload:u8}"]
+prop("C08",
+     "SCOPED to the leader's request assembly: the entries retrieve_to_be_synced_logs_for_peers selects for a peer are consecutive and start at the peer's next index "
+     "(what build_append_request then sends with prev_log_index = next-1), and nothing is selected for the leader itself -- for every leader log length <= 4, next index, "
+     "per-request cap 1..=2 and 0..=1 new entries. Decided in three regions: no new entries (any backlog), one new entry with the backlog within the cap, one new entry with the "
+     "backlog exceeding the cap (known finding: the request is gapped).",
+     ["d-engine-core/src/replication/replication_handler.rs"],
+     ["the follower side (filter_out_conflicts_and_append appends the tail of a request without a contiguity check): a conflict-append onto a non-empty log is not decidable (DESIGN 2c); "
+      "that a gapped request produces a gapped follower log is read from the source, not decided", "build_append_request / prepare_batch_requests (HashMap + Vec<Entry> request materialisation)",
+      "more than one peer, caps above 2, more than one new entry"],
+     [TRUST_TOOL, "the slice environment (kani/shadow/src/rshim.rs) is faithful to std HashMap / RaftLog::get_entries_range for the use made of them"],
+     [H(n, "gen_repl::h", crate="shadow", timeout=600, common=False, loops=6,
+        functions=["ReplicationHandler::retrieve_to_be_synced_logs_for_peers (verbatim function slice, kani/shadow/gen.py)"], stubs=_c08_stubs,
+        assumptions=["leader log holds every index 1..=last (no compaction)", "new entries are at last+1.. (what the leader just appended)"],
+        bounds=b)
+      for (n, b) in (("c08_request_contiguous_no_new_entries", "last <= 4, next 1..=last+1, cap 1..=2, no new entries"),
+                     ("c08_request_contiguous_new_entry_backlog_within_cap", "last <= 4, next 1..=last+1, cap 1..=2, one new entry, backlog (last-next+1) <= cap"),
+                     ("c08_request_contiguous_new_entry_backlog_exceeds_cap", "last <= 4, next 1..=last+1, cap 1..=2, one new entry, backlog > cap"))])
+
+# C05: the last log id that feeds the election restriction is right after compaction (purge boundary)
+PROPS["C05"]["harnesses"] += [h_c19_pu] + [
+    H(f"c05_scratch_request_keeps_agreeing_entries_{n}", "gen_brl::h", crate="shadow", timeout=900, common=False, loops=7,
+      functions=["BufferedRaftLog::filter_out_conflicts_and_append (prev (0,0) branch)", "BufferedRaftLog::reset", "BufferedRaftLog::append_entries"],
+      stubs=SHADOW_STUBS, assumptions=C19_ASSUME[:1] + ["follower log is the concrete [1:t1, 2:t1, 3:t2]"],
+      bounds=f"any Raft-valid request with prev (0,0) and {n} entr{'y' if n == 1 else 'ies'} (terms symbolic 1..=3)") for n in (1, 2)]
+PROPS["C05"]["sources"].append("d-engine-core/src/storage/buffered_raft_log.rs")
+PROPS["C05"]["claim"] += (" Plus, on the real BufferedRaftLog (shadow build): after a purge the log still reports the purge boundary as its last log id / entry term "
+                          "(the value the election restriction and the AppendEntries consistency check compare against).")
+
 prop("WIP", "work in progress batch", [], [], [], [
     H("c01_candidate_stepdown_keeps_vote", "h_more", timeout=1200, loops=9),
 ])
 prop("PROBE", "probes", [], [], [], [
     H("probe_default_cfg", "probe", timeout=600),
-    H("s00_smoke", "gen_brl::h", crate="shadow", timeout=600),
-    H("c19_two_ops_from_empty", "gen_brl::h", crate="shadow", timeout=1500),
 ])
